@@ -177,6 +177,11 @@ func vPickScenario() *vScenario {
 		// lists with a repeated value occur
 		sc = &vScenario{leaves: []*vLeaf{{id: "leaflist/entry", elems: []*sdcpb.PathElem{vPE("leaflist"), vPE("entry")}, strs: []string{"leaflist", "entry"},
 			ll: true, llMin: 2, llMax: 3, llElems: []string{"a", "b"}}}, owners: []string{"A", "B"}}
+	case 7:
+		// two list entries (prefix-related keys), three owners: intents on disjoint entries with a
+		// third one competing on either
+		sc = vScenarioPrefix()
+		sc.owners = []string{"A", "B", "C"}
 	default:
 		sc = vScenarioThin()
 	}
